@@ -230,6 +230,13 @@ def rule_b(ctx: Context, R: Reporter):
                     for c in ast.walk(d.value):
                         if isinstance(c, ast.Call) and tg.role_of_call(c) == "prior_transform":
                             uvars |= {x.id for a in c.args for x in ast.walk(a) if isinstance(x, ast.Name)}
+                    # a comprehension variable stands for the rows of what it iterates over
+                    for comp in ast.walk(d.value):
+                        if isinstance(comp, (ast.ListComp, ast.GeneratorExp)):
+                            for g in comp.generators:
+                                tnames = {x.id for x in ast.walk(g.target) if isinstance(x, ast.Name)}
+                                if tnames & uvars:
+                                    uvars |= {x.id for x in ast.walk(g.iter) if isinstance(x, ast.Name)}
                 ok = stored.get("x") == {xarg.id} and stored.get("logl") == {lname} and stored.get("u", set()) <= uvars and bool(stored.get("u"))
                 if bname and "blobs" in stored:
                     ok = ok and stored["blobs"] == {bname}
@@ -265,9 +272,17 @@ def bounds_helpers(ctx: Context) -> Tuple[FuncInfo, FuncInfo]:
             continue
         has_cmp = any(isinstance(n, ast.Compare) and any(isinstance(o, (ast.GtE, ast.LtE, ast.Gt, ast.Lt)) for o in n.ops) for n in walk_no_nested(fi.node))
         first = fi.params[0]
+        # names that alias a copy of the first parameter (u = u.copy(); folded = u.copy(); np.array(u))
+        copies = {first}
+        for n in walk_no_nested(fi.node):
+            if isinstance(n, ast.Assign) and len(n.targets) == 1 and isinstance(n.targets[0], ast.Name):
+                v = n.value
+                if isinstance(v, ast.Call) and ((isinstance(v.func, ast.Attribute) and v.func.attr == "copy" and isinstance(v.func.value, ast.Name) and v.func.value.id in copies) or
+                                               (dotted(v.func) in ("np.array", "np.copy", "numpy.array") and v.args and isinstance(v.args[0], ast.Name) and v.args[0].id in copies)):
+                    copies.add(n.targets[0].id)
         stores = any(isinstance(n, (ast.Assign, ast.AugAssign)) and isinstance((n.targets[0] if isinstance(n, ast.Assign) else n.target), ast.Subscript)
                      and isinstance((n.targets[0] if isinstance(n, ast.Assign) else n.target).value, ast.Name)
-                     and (n.targets[0] if isinstance(n, ast.Assign) else n.target).value.id == first for n in walk_no_nested(fi.node))
+                     and (n.targets[0] if isinstance(n, ast.Assign) else n.target).value.id in copies for n in walk_no_nested(fi.node))
         if len(fi.params) != 3:
             continue
         if stores:
@@ -359,8 +374,15 @@ def rule_d(ctx: Context, R: Reporter):
     for fi in ctx.prog.functions.values():
         fl = flow_of(fi.node)
         for n in fl.cfg.stmt_nodes():
-            if n.kind == "stmt" and isinstance(n.stmt, ast.Assign) and isinstance(n.stmt.targets[0], ast.Tuple) and isinstance(n.stmt.value, ast.Call):
-                reach = [t for t in ctx.res.call_targets(fi, n.stmt.value) if isinstance(t, FuncInfo)]
+            if n.kind == "stmt" and isinstance(n.stmt, ast.Assign) and isinstance(n.stmt.targets[0], ast.Tuple) and isinstance(n.stmt.value, (ast.Call, ast.Name)):
+                callv = n.stmt.value
+                if isinstance(callv, ast.Name):
+                    ds0 = fl.reaching(n, callv.id)
+                    if len(ds0) == 1 and ds0[0].kind == "assign" and isinstance(ds0[0].value, ast.Call) and not ds0[0].path:
+                        callv = ds0[0].value
+                    else:
+                        continue
+                reach = [t for t in ctx.res.call_targets(fi, callv) if isinstance(t, FuncInfo)]
                 if any(run in ctx.cg.reachable([t]) and t is not run and fi.cls is not base and not ctx.prog.is_subclass(fi.cls, base) if fi.cls else run in ctx.cg.reachable([t]) for t in reach):
                     if len(n.stmt.targets[0].elts) == len(rets[0].value.elts):
                         consumers.append((fi, n))
